@@ -35,7 +35,8 @@ def run_js(calls):
     prog = src + '\nconst __calls = ' + json.dumps(calls).replace('NaN', 'NaN') + ';\n'
     prog += ('const __fns = {%s};\n' % ', '.join(f'{n}: {n}' for n in js.funcs))
     prog += ('const __enc = (v) => (typeof v === "number") ? (Number.isNaN(v) ? "NaN" : (v === Infinity ? "Infinity" : (v === -Infinity ? "-Infinity" : (Object.is(v, -0) ? "-0" : v)))) : v;\n'
-             'const __out = __calls.map(([f, a]) => { const r = __fns[f](...a.map(x => (typeof x === "string" && x.startsWith("@num:")) ? Number(x.slice(5)) : x));'
+             'const __out = __calls.map(([f, a]) => { let r; try { r = __fns[f](...a.map(x => (typeof x === "string" && x.startsWith("@num:")) ? Number(x.slice(5)) : x)); }'
+             ' catch (e) { return {"__threw__": String(e)}; }'
              ' if (r && typeof r === "object") { const o = {}; for (const k of Object.keys(r)) o[k] = __enc(r[k]); return o; } return __enc(r); });\n'
              'console.log(JSON.stringify(__out));\n')
     with tempfile.NamedTemporaryFile('w', suffix='.js', delete=False) as f:
@@ -177,9 +178,13 @@ class Query:
         if self.kind == 'excluded':
             p = cl.is_excluded_from_spending(tags)
             j = run_js([('isExcludedFromSpending', [tags])])[0]
+            if isinstance(j, dict) and '__threw__' in j:
+                return False
             return bool(p) == bool(j)
         p = cl.categorize_amount(amount, tags)
         j = run_js([('categorizeAmount', [_num_arg(amount), tags])])[0]
+        if isinstance(j, dict) and '__threw__' in j:
+            return False
         pk, jk = kw.get('which', self.which)
         return _same(p.get(pk, 0.0), j.get(jk, 0))
 
@@ -201,10 +206,12 @@ def _grid(kind):
     lists = lists + lists
     if kind == 'excluded':
         return [({'amount': 1.0, 'tags': t}, ('isExcludedFromSpending', [t])) for t in lists]
-    return [({'amount': a, 'tags': t}, ('categorizeAmount', [_num_arg(a), t])) for a in (-2.5, -0.0, 0.0, 3.0, nan) for t in lists]
+    return [({'amount': a, 'tags': t}, ('categorizeAmount', [_num_arg(a), t])) for a in (-2.5, -0.0, 0.0, 3.0, nan, 0.125, -1.115, 2.675, 0.015, 100.125, 1e-9, -1e15) for t in (lists if a in (-2.5, 3.0) or a != a else lists[:len(lists) // 2:3])]
 
 
 def _agree(cl, kind, which, inp, j):
+    if isinstance(j, dict) and '__threw__' in j:
+        return False            # the Python side returns a value for every input of the grid
     if kind == 'cashflow':
         return _same(cl.calculate_cash_flow(inp['income'], inp['spending'], inp['credits']), j)
     if kind == 'excluded':
